@@ -9,6 +9,7 @@ import (
 	"lunar/engine/utils"
 	sharedConfig "lunar/shared-model/config"
 	"lunar/toolkit-core/clock"
+	"maps"
 	"strings"
 
 	"github.com/rs/zerolog/log"
@@ -55,10 +56,12 @@ func (plugin *CachingPlugin) OnRequest(
 		cachedResponse.Status,
 	)
 
+	// The headers are copied: the stored record is shared by every transaction
+	// it answers, and the actions of a transaction modify its headers.
 	lunarAction := &actions.EarlyResponseAction{
 		Status:  cachedResponse.Status,
 		Body:    cachedResponse.Body,
-		Headers: cachedResponse.Headers,
+		Headers: maps.Clone(cachedResponse.Headers),
 	}
 
 	return lunarAction, nil
@@ -84,10 +87,11 @@ func (plugin *CachingPlugin) OnResponse(
 		return &actions.NoOpAction{}, nil
 	}
 
+	// The headers are copied: later remedies of this transaction still modify them.
 	cachedResponse := CachedResponse{
 		ID:           onResponse.ID,
 		Body:         onResponse.Body,
-		Headers:      onResponse.Headers,
+		Headers:      maps.Clone(onResponse.Headers),
 		Status:       onResponse.Status,
 		CreationTime: plugin.clock.Now(),
 	}
